@@ -450,13 +450,18 @@ def rockit_pickle_context():
         enc = string_serializer.encode()
         return {"s":enc}
 
+    # CasADi may bring its own pickling hooks: put them back afterwards (also when pickling fails)
+    saved = [c.__dict__.get('__getstate__') for c in ca_classes]
     for c in ca_classes:
         setattr(c, '__getstate__', __getstate__)
-        
-    yield
-
-    for c in ca_classes:
-        delattr(c, '__getstate__')
+    try:
+        yield
+    finally:
+        for c, orig in zip(ca_classes, saved):
+            if orig is None:
+                delattr(c, '__getstate__')
+            else:
+                setattr(c, '__getstate__', orig)
 
 @contextmanager
 def rockit_unpickle_context():
@@ -469,13 +474,17 @@ def rockit_unpickle_context():
         s = string_deserializer.unpack()
         self.this = s.this
 
+    saved = [c.__dict__.get('__setstate__') for c in ca_classes]
     for c in ca_classes:
         setattr(c, '__setstate__', __setstate__)
-        
-    yield
-
-    for c in ca_classes:
-        delattr(c, '__setstate__')
+    try:
+        yield
+    finally:
+        for c, orig in zip(ca_classes, saved):
+            if orig is None:
+                delattr(c, '__setstate__')
+            else:
+                setattr(c, '__setstate__', orig)
         
 def interface_simulink(mdl,path='',block='',exclude_outputs='',exclude_inputs='',options=None,jacobian_options=None):
     opts = {}
